@@ -16,7 +16,7 @@ theorem bodyOutcome_eq (c : Ctx) (declared : List (String × Option S)) (header 
           | some (some s) =>
             (match decoded header cd data with
              | none => .reject
-             | some v => (match visit c s v with | none => .reject | some v' => finish c header cd v v'))
+             | some v => (match visit c s v with | none => .reject | some v' => finish c header cd (touched c s v) v'))
           | _ => .accept) := by
   rfl
 
@@ -42,7 +42,21 @@ theorem noBodyEncoder_eq (c : Ctx) (declared : List (String × Option S)) (heade
           (match schemaOf key declared with
            | some (some s) =>
              (match decoded header cd data with
-              | some v => (match visit c s v with | some v' => !(J.beq v' v) | none => false)
+              | some v => (match visit c s v with | some _ => touched c s v | none => false)
+              | none => false)
+           | _ => false)
+        | none => false)) := by
+  rfl
+
+theorem reencodedUnchanged_eq (c : Ctx) (declared : List (String × Option S)) (header : String) (cd : Codec) (data : Bytes) :
+    ReencodedUnchanged c declared header cd data =
+      (c.setDefaults &&
+       (match contentGet (declared.map (·.1)) header with
+        | some key =>
+          (match schemaOf key declared with
+           | some (some s) =>
+             (match decoded header cd data with
+              | some v => DiscardedCandidateTouches c s v
               | none => false)
            | _ => false)
         | none => false)) := by
@@ -75,6 +89,43 @@ theorem relOK_strKept (c : Ctx) : RelOK c strKept where
 
 theorem visit_str (c : Ctx) (s : S) (t : String) (v' : J) (h : visit c s (.str t) = some v') : v' = .str t :=
   visit_rel (relOK_strKept c) s (.str t) v' h t rfl
+
+/-- a string is never an object: nothing is touched -/
+theorem touched_str (c : Ctx) (t : String) : ∀ s, touched c s (.str t) = false := by
+  intro s
+  induction s using S.induct with
+  | leaf a ty => rw [touched_leaf]
+  | obj a req props addl _ => rw [touched.eq_def]
+  | arr a items _ => rw [touched.eq_def]
+  | comb a k bs ih =>
+    rw [touched_comb]
+    simp only [J.isNull, Bool.false_eq_true, ↓reduceIte]
+    have h1 : ∀ (l : List S), (∀ b ∈ l, touched c b (.str t) = false) → touchedEach c l (.str t) = false := by
+      intro l; induction l with
+      | nil => intro _; rfl
+      | cons b r ihr => intro h; simp [touchedEach, h b (by simp), ihr (fun b' hb => h b' (by simp [hb]))]
+    have h2 : ∀ (l : List S), (∀ b ∈ l, touched c b (.str t) = false) → touchedUntilMatch c l (.str t) = false := by
+      intro l; induction l with
+      | nil => intro _; rfl
+      | cons b r ihr =>
+        intro h
+        simp only [touchedUntilMatch, h b (by simp), Bool.false_or]
+        split
+        · rfl
+        · exact ihr (fun b' hb => h b' (by simp [hb]))
+    have h3 : ∀ (l : List S), (∀ b ∈ l, touched c b (.str t) = false) → touchedChain c l (.str t) = false := by
+      intro l; induction l with
+      | nil => intro _; rfl
+      | cons b r ihr =>
+        intro h
+        simp only [touchedChain, h b (by simp), Bool.false_or]
+        cases hv : visit c b (.str t) with
+        | none => rfl
+        | some v1 => simp only; rw [visit_str c b t v1 hv]; exact ihr (fun b' hb => h b' (by simp [hb]))
+    cases k with
+    | oneOf => exact h1 bs ih
+    | anyOf => exact h2 bs ih
+    | allOf => exact h3 bs ih
 
 theorem J.beq_refl : ∀ (a : J), J.beq a a = true := by
   intro a
